@@ -255,4 +255,86 @@ example : (BillStat_Upload ⟨"key"⟩ 2 true (true, none) none [("a", some ⟨"
     none none none (true, some "EOF") true none).1 = none := by
   simp [BillStat_Upload, goRange, goRangeFrom]
 
+/-! ## `mainmw.recordQueryInfo`: the only caller of `billStat.Record` (round 3c)
+
+Translated with the call trace; `DeviceData`, `responseData`, `responseCountry`, `Write` … are opaque calls
+whose results are parameters, so the statements hold for every behaviour of theirs. -/
+
+/-- Arguments of the calls of `f` in a trace. -/
+def callsOf (f : String) (tr : Trace) : List (List String) := (tr.filter (·.1 = f)).map (·.2)
+
+/-- Country and ASN handed to `Record`: those of `ri.Location`, the zero values without a location. -/
+def locOf (ri : S_agd_RequestInfo) : String × Int :=
+  match ri.Location with
+  | none => ("", 0)
+  | some g => (g.Country, g.ASN)
+
+/-- **Billing clause on the translated source**, for every request, every result of the opaque calls
+(profile flags, filtering outcome, response data, query-log error): `Record` is called exactly once when
+the request has a profile — with the device's id, the country and ASN of `ri.Location` (zero values without
+one) and the server's protocol, whatever `QueryLogEnabled`, `blocked` and the query log do — and never
+without a profile; it is the fifth effect, before `responseData` and `Write`.  The only panic is a profile
+without a device (`dev.ID`) or — with query logging — a nil profile pointer, which cannot happen there. -/
+theorem recordQueryInfo_bills (mw : S_mainmw_Middleware) (fctx : S_mainmw_filteringContext) (ri : S_agd_RequestInfo)
+    (fd : String × String × Bool) (prof : Option S_agd_Profile) (dev : Option S_agd_Device)
+    (reqInfo : Option S_dnsserver_RequestInfo) (st : Unit) (rd1 rd2 : Int × Unit × Bool) (rip q : Unit)
+    (ctry name : String) (since : Int) (werr : Option String) :
+    match recordQueryInfo mw fctx ri fd (prof, dev) reqInfo st rd1 rd2 rip q ctry name since werr with
+    | none => prof.isSome ∧ dev = none
+    | some tr =>
+      callsOf "Record" tr =
+        (match prof, dev with
+         | some _, some d => [["_", d.ID, (locOf ri).1, toString (locOf ri).2, "_", toString ri.Proto]]
+         | _, _ => []) ∧
+      (prof.isSome → (names tr).take 5 = ["filteringData", "Collect", "DeviceData", "MustRequestInfoFromContext", "Record"]) ∧
+      (prof = none → names tr = ["filteringData", "Collect", "DeviceData"]) := by
+  unfold recordQueryInfo locOf
+  cases prof with
+  | none => simp [callsOf, names]
+  | some p =>
+    cases dev with
+    | none => simp
+    | some d =>
+      cases hl : ri.Location <;> cases hq : p.QueryLogEnabled <;> cases hb : fd.2.2 <;> cases hi : p.IPLogEnabled <;>
+        cases werr <;> simp [callsOf, names, hq, hb, hi]
+
+/-- **The model's `billOf` is what the translated `recordQueryInfo` does**: for every answered query of the
+model, any rendering of its device and country numbers (`showD`, `showC` with `showC 0 = ""`), and every
+behaviour of the opaque calls, the `Record` calls in the trace are exactly `billOf q` (none, or one with the
+model's device, country, ASN and protocol). -/
+theorem billOf_tr (showD showC : Nat → String) (hC0 : showC 0 = "") (q : Query) (hq : q.answered = true)
+    (mw : S_mainmw_Middleware) (fctx : S_mainmw_filteringContext) (ri : S_agd_RequestInfo)
+    (hproto : ri.Proto = q.proto)
+    (hloc : ri.Location = q.loc.map fun l => { Country := showC l.1, Continent := "", TopSubdivision := "", ASN := l.2 })
+    (prof : Option S_agd_Profile) (dev : Option S_agd_Device)
+    (hprof : prof = none ↔ q.dev = none) (hdev : ∀ n, q.dev = some n → ∃ d, dev = some d ∧ d.ID = showD n)
+    (fd : String × String × Bool) (reqInfo : Option S_dnsserver_RequestInfo) (st : Unit) (rd1 rd2 : Int × Unit × Bool)
+    (rip qn : Unit) (ctry name : String) (since : Int) (werr : Option String) (tr : Trace)
+    (h : recordQueryInfo mw fctx ri fd (prof, dev) reqInfo st rd1 rd2 rip qn ctry name since werr = some tr) :
+    callsOf "Record" tr =
+      match billOf q with
+      | none => []
+      | some (d, m) => [["_", showD d, showC m.ctry, toString (m.asn : Int), "_", toString (m.proto : Int)]] := by
+  have key := recordQueryInfo_bills mw fctx ri fd prof dev reqInfo st rd1 rd2 rip qn ctry name since werr
+  rw [h] at key
+  rw [key.1]
+  unfold billOf
+  simp only [hq, Bool.not_true, Bool.false_eq_true, if_false]
+  cases hd : q.dev with
+  | none => rw [hprof.2 hd]
+  | some n =>
+    obtain ⟨d, rfl, hid⟩ := hdev n hd
+    cases prof with
+    | none => exact absurd (hprof.1 rfl) (by simp [hd])
+    | some p =>
+      cases hl : q.loc with
+      | none => simp [locOf, hloc, hl, hid, hC0, hproto]
+      | some l => simp [locOf, hloc, hl, hid, hproto]
+
+/-- A non-trivial instance of the hypotheses: device 7 in country 3, AS 64500, over protocol 8. -/
+example : billOf { dev := some 7, loc := some (3, 64500), start := 0, proto := 8, qlog := false } =
+    some (7, ⟨0, 3, 64500, 8⟩) := by decide
+
 end Agd.Tie.TrC16
+#print axioms Agd.Tie.TrC16.recordQueryInfo_bills
+#print axioms Agd.Tie.TrC16.billOf_tr
